@@ -4,7 +4,7 @@ import e2tok
 
 
 def run(tier, seed, ev, jobs):
-    rc = e2tok.run_tokens("C01", ["unwind", "repr", "sub"], tier, seed, ev, jobs)
+    rc = e2tok.run_tokens("C01", ["unwind", "repr", "sub"], tier, seed, ev, jobs, n_for={"MT210": 14})
     return e1.combine(rc, e1.run_e1("C01", tier, seed, ev, jobs))
 
 
